@@ -1,11 +1,17 @@
 #!/bin/sh
-# usage: tools/run_seeded_batches.sh C12 C14 ...   (evaluates /tmp/mutants/<P>/{1,2,3} one after the other)
+# usage: [MUT_DIR=/tmp/mutants] [TAG=s] [WT_PREFIX=/tmp/mut-] tools/run_seeded_batches.sh C12 C14 ...
+# evaluates $MUT_DIR/<P>/{1,2,3} one after the other into /verif/seeded/<P>-<TAG><k>
 cd /verif || exit 2
+MUT_DIR="${MUT_DIR:-/tmp/mutants}"; TAG="${TAG:-s}"; WT_PREFIX="${WT_PREFIX:-/tmp/mut-}"
 for p in "$@"; do
   for k in 1 2 3; do
     echo "=== $p-$k"
-    tools/seeded.py /tmp/mutants/$p/$k $p $p-s$k 2>&1 | grep -E '"demo_clean|"demo_changed_exit|suite_summary|baseline_missing|"exit"|signature|VIOLATION|OK |PATCH|KNOWN' | cut -c1-230
+    if [ -f "$MUT_DIR/$p/$k/patch.diff" ]; then
+      tools/seeded.py "$MUT_DIR/$p/$k" "$p" "$p-$TAG$k" 2>&1 | grep -E '"demo_clean|"demo_changed_exit|suite_summary|baseline_missing|"exit"|signature|VIOLATION|OK |PATCH|KNOWN' | cut -c1-230
+    else
+      echo "no patch at $MUT_DIR/$p/$k"
+    fi
   done
-  git -C /repo worktree remove --force /tmp/mut-$p 2>/dev/null
+  git -C /repo worktree remove --force "$WT_PREFIX$p" 2>/dev/null
 done
 echo ALLDONE
